@@ -16,8 +16,36 @@ PROCESS_BEH = ["exit0", "exit1", "hang", "hang_deaf", "slow:1", "slow:2", "slow:
 ANSWER_BEH = ["unloadable", "put_raises"]
 F08_BEH = ["late", "dies_before", "drops"]          # known finding F08 (queues shared by successive workers): probe streams only
 
+# shapes of what the comparator returns (an otherwise normal replay).  "cr:<status>:<message>:<diff>:<class>" = a
+# ComparatorResult (class "plain") or an instance of a subclass of it carrying an attribute of its own ("sub") with
+#   status   a member of EqualityStatus, or a value that is none (none / true / name: None, True, the text 'Equal')
+#   message  none | text | falsy (an empty dict) | struct (a dict describing the difference) | num (a number)
+#   diff     0 | 1 (the `diff` member set to a dict naming the recording)
+# "foreign:<none|true|name>" = the comparator returns that value bare (the code wraps it into a ComparatorResult).
+FOREIGN = ["none", "true", "name"]
+SHAPE_MSGS = ["none", "text", "falsy", "struct", "num"]
+SHAPE_BEH = (["cr:%s:%s:%d:%s" % (st, m, d, k) for st in STATUSES for m in SHAPE_MSGS for d in (0, 1) for k in ("plain", "sub")]
+             + ["cr:%s:%s:%d:plain" % (st, m, d) for st in FOREIGN for m in ("none", "text") for d in (0, 1)]
+             + ["foreign:%s" % st for st in FOREIGN])
+
+
+def shape_of(b):
+    """{status (None: not an EqualityStatus), msg, diff, sub, bare} of a verdict-shape behaviour, else None"""
+    if b.startswith("foreign:"):
+        return dict(status=None, msg="none", diff=False, sub=False, bare=True)
+    if not b.startswith("cr:"):
+        return None
+    _, st, m, d, k = b.split(":")
+    return dict(status=st if st in STATUSES else None, msg=m, diff=d == "1", sub=k == "sub", bare=False)
+
+
+def renderable(sh):
+    """Comparison.__str__ copes with this verdict (status has a .name, a truthy message is text)"""
+    return sh["status"] is not None and sh["msg"] not in ("struct", "num")
+
 MSGS = {"none": "MNone", "cmp": "MCmp", "player": "MPlayer", "extractor": "MExtractor", "comparator": "MComparator",
-        "died": "MDied", "timeout": "MTimeout", "unload": "MUnload", "refused": "MRefused"}
+        "died": "MDied", "timeout": "MTimeout", "unload": "MUnload", "refused": "MRefused",
+        "falsy": "MFalsy", "struct": "MStruct", "render": "MRender"}
 OUTCOMES = {"completed": "Completed", "closed": "Completed", "consumer-raised": "Completed", "iter-raised": "Completed",
             "deadlock": "Deadlock", "abort-exit": "AbortExit", "blocks": "Blocks"}
 STATE_CODE = {"idle": 0, "busy": 1, "hung": 2, "dead:exit": 3, "dead:before": 4, "dead:killed": 5, "dead:terminated": 6}
@@ -57,6 +85,12 @@ def g_beh(b):
         return "(BBadAnswer Unloadable)"
     if b == "put_raises":
         return "(BBadAnswer Refused)"
+    sh = shape_of(b)
+    if sh is not None:
+        return "(BReturns (VShape %s %s %s %s))" % (
+            "VForeign" if sh["status"] is None else "(VEnum %s)" % sh["status"],
+            {"none": "VNone", "text": "VText", "falsy": "VFalsy", "struct": "VStruct", "num": "VStruct"}[sh["msg"]],
+            gbool(sh["diff"]), gbool(sh["sub"]))
     raise ValueError(b)
 
 
@@ -84,13 +118,16 @@ def g_tri(x):
 
 def g_cmp(c):
     """one projected Comparison -> Gallina, or None when it is outside what the model can express"""
-    lab, st, m, att, he, ha, f1, f2 = c
+    lab, st, m, att, he, ha, f1, f2, d, cls = c
     if not isinstance(lab, int) or st not in STATUSES or m not in MSGS or not (att is None or isinstance(att, int)):
         return None
-    if lab >= 5000 or (att or 0) >= 5000:
+    if not (d is None or isinstance(d, int)) or cls not in ("plain", "sub"):
         return None
-    return "(Cmp %s %s %s %s %s %s %s %s)" % (gnat(lab), st, MSGS[m], gopt(None if att is None else gnat(att)),
-                                              gbool(he), gbool(ha), g_tri(f1), g_tri(f2))
+    if lab >= 5000 or (att or 0) >= 5000 or (d or 0) >= 5000:
+        return None
+    return "(Cmp %s %s %s %s %s %s %s %s %s %s)" % (gnat(lab), st, MSGS[m], gopt(None if att is None else gnat(att)),
+                                                    gbool(he), gbool(ha), g_tri(f1), g_tri(f2),
+                                                    gopt(None if d is None else gnat(d)), gbool(cls == "sub"))
 
 
 def g_cmps(cmps):
@@ -187,7 +224,15 @@ def mode_neutral(b, timeout):
 
 
 def expected_status(b, dedicated, timeout):
-    """the property's own expectation of the verdict of one recording; None = not determined by the property"""
+    """the property's own expectation of the verdict of one recording: a status, a tuple of acceptable statuses, or
+    None = not determined by the property"""
+    sh = shape_of(b)
+    if sh is not None:
+        # a verdict the framework can render is the comparator's; one it cannot render (the log line of run_comparison
+        # fails on it) is at most a framework failure of that recording - a tree that copes with it may hand it on
+        if renderable(sh):
+            return sh["status"]
+        return ("EqualizerFailure",) if sh["status"] is None else (sh["status"], "EqualizerFailure")
     if b.startswith("bare:"):
         return b[5:]
     if b == "different":
@@ -206,6 +251,31 @@ def expected_status(b, dedicated, timeout):
     return "EqualizerFailure" if f else "Equal"
 
 
+def status_ok(exp, st):
+    return exp is None or (st in exp if isinstance(exp, tuple) else st == exp)
+
+
+def payload_fails(b, c):
+    """the verdict attached to a comparison is the one the comparator produced for THAT recording, whole: its diff
+    and its class (direct predicate; c = projected comparison).  A framework-failure verdict made by the framework
+    carries neither."""
+    out = []
+    lab, st, d, cls = c[0], c[1], c[8], c[9]
+    if d is not None and d != lab:
+        out.append(("foreign-diff-attached", "comparison labelled r%s carries the diff of %s" % (lab, d)))
+    sh = shape_of(b)
+    passed_on = sh is not None and st == sh["status"] and c[2] != "render"
+    want_d = lab if (passed_on and sh["diff"]) else None
+    want_cls = "sub" if (passed_on and sh["sub"]) else "plain"
+    if sh is not None and (passed_on or renderable(sh)) and (d != want_d or cls != want_cls):
+        out.append(("verdict-payload-altered", "comparison of r%s (%s): the comparator's verdict has diff %s and class '%s', "
+                    "the comparison carries diff %s and class '%s'"
+                    % (lab, b, "of r%s" % lab if sh["diff"] else None, "sub" if sh["sub"] else "plain", d, cls)))
+    elif sh is None and (d is not None or cls != "plain"):
+        out.append(("verdict-payload-altered", "comparison of r%s (%s) carries diff %s and class '%s'" % (lab, b, d, cls)))
+    return out
+
+
 def features(case):
     f = set()
     f.add("mode:" + ("real-processes" if case.get("kind") == "real" else
@@ -220,7 +290,20 @@ def features(case):
     ids = case["ids"]
     for k, i in enumerate(ids):
         b = beh_of(case, i)
-        f.add("beh:" + (b.split(":")[0] if b.startswith("slow") else b))
+        sh = shape_of(b)
+        if sh is not None:
+            f.add("beh:verdict-shape")
+            f.add("verdict:status=" + (sh["status"] or "not-a-status"))
+            f.add("verdict:message=" + sh["msg"])
+            f.add("verdict:" + ("bare-value" if sh["bare"] else "subclass-instance" if sh["sub"] else "plain-result"))
+            if sh["diff"]:
+                f.add("verdict:diff")
+            if not renderable(sh):
+                f.add("verdict:unrenderable")
+                if k + 1 < len(ids):
+                    f.add("unrenderable-verdict-not-last")
+        else:
+            f.add("beh:" + (b.split(":")[0] if b.startswith("slow") else b))
         if fatal_dedicated(b, case["timeout"]):
             if k == 0:
                 f.add("fault-at-first")
